@@ -1,6 +1,6 @@
 (** C07 — render/macro scopes are isolated and block scopes do not leak.
     Model: Core/Render.v (tied to /repo by the C01 and C07 correspondence runs). *)
-From LQ Require Import Core.Render Proofs.Render_proofs Proofs.Render_control Proofs.Render_lambda.
+From LQ Require Import Core.Render Proofs.Render_proofs Proofs.Render_control Proofs.Render_lambda Proofs.Render_buffer.
 
 (** Every node - for, with, include, render, call, capture, if, case ... -
     leaves the stack of block scopes, the loop stack, the current template
@@ -108,3 +108,18 @@ Theorem c07_render_for_items_do_not_see_each_other : forall g rec body key len n
   render_iter g rec body key len nsp its (i + 1)%Z cc (bf r).
 Proof. exact render_iter_ignores_what_an_item_leaves. Qed.
 Print Assumptions c07_render_for_items_do_not_see_each_other.
+
+(** render ... for, whole loop: when every item, rendered ALONE from the fresh
+    isolated copy [cc] into an empty buffer, completes, the loop completes, hands
+    back [cc] untouched, and appends exactly the concatenation, in order, of what
+    the items write alone.  No item's text, counters, assigns or captures can
+    influence another item's text, and nothing written earlier is rewritten. *)
+Theorem c07_render_for_is_concatenation_of_isolated_items :
+  forall g ld fuel body key len nsp its i cc b,
+  null b = false ->
+  items_done g (render g ld fuel) body key len nsp its i cc ->
+  let r := render_iter g (render g ld fuel) body key len nsp its i cc b in
+  st r = SDone /\ cx r = cc /\
+  text (bf r) = text b ++ items_text g (render g ld fuel) body key len nsp its i cc.
+Proof. exact render_for_is_concatenation_of_isolated_items. Qed.
+Print Assumptions c07_render_for_is_concatenation_of_isolated_items.
